@@ -799,6 +799,205 @@ func genT(r *hx.Rand, st *hx.Stats) (c tCase) {
 	return c
 }
 
+// ---------------------------------------------------------------- kind O: the options of timeout.New
+
+type oOpt struct {
+	K  string   `json:"k"`            // D NL WL H SP PX SX SK
+	N  int      `json:"n,omitempty"`  // D: budget in ms; H: tag; SK: 0 nil function, 1 returns false, 2 returns true
+	Ps []string `json:"ps,omitempty"` // SP PX SX
+}
+
+type oCase struct {
+	Kind string   `json:"kind"` // "O"
+	Opts []oOpt   `json:"opts"`
+	Path string   `json:"path"`
+	Prog []string `json:"prog"` // W P<v>
+}
+
+var oPaths = []string{"/t", "/t/x", "/admin/t", "/admin", "/a.ws", "/ws", "/x/a.ws"}
+
+type oObs struct {
+	HasDeadline bool
+	Budget      int
+	Calls       int
+	Status      int
+	Body        []int
+	Escaped     int
+	HPanicked   bool
+	Recovered   bool
+}
+
+func runO(c oCase) oObs {
+	var recovered, hPanicked atomic.Bool
+	var calls atomic.Int32
+	o := oObs{Escaped: -1}
+	var opts []timeout.Option
+	for _, op := range c.Opts {
+		switch op.K {
+		case "D":
+			opts = append(opts, timeout.WithDuration(time.Duration(op.N)*time.Millisecond))
+		case "NL":
+			opts = append(opts, timeout.WithoutLogging())
+		case "WL":
+			opts = append(opts, timeout.WithLogger(slog.New(slog.NewTextHandler(io.Discard, nil))))
+		case "H":
+			opts = append(opts, timeout.WithHandler(func(c *router.Context, _ time.Duration) {
+				_ = c.JSON(http.StatusRequestTimeout, map[string]any{"error": "Request timeout", "code": "TIMEOUT"})
+			}))
+		case "SP":
+			opts = append(opts, timeout.WithSkipPaths(op.Ps...))
+		case "PX":
+			opts = append(opts, timeout.WithSkipPrefix(op.Ps...))
+		case "SX":
+			opts = append(opts, timeout.WithSkipSuffix(op.Ps...))
+		case "SK":
+			if op.N == 0 {
+				opts = append(opts, timeout.WithSkip(nil))
+			} else {
+				res := op.N == 2
+				opts = append(opts, timeout.WithSkip(func(*router.Context) bool { calls.Add(1); return res }))
+			}
+		}
+	}
+	r := router.MustNew()
+	r.Use(recovery.New(recovery.WithLogger(slog.New(flagHandler{&recovered}))))
+	r.Use(timeout.New(opts...))
+	h := func(rc *router.Context) {
+		if dl, ok := rc.Request.Context().Deadline(); ok {
+			o.HasDeadline = true
+			o.Budget = int((time.Until(dl) + 500*time.Millisecond) / time.Second) // the budget rounded to whole seconds (30, 3600, 7200)
+		}
+		for _, act := range c.Prog {
+			if act == "W" {
+				_ = rc.JSON(cx.StatusOf(tHid), map[string]int{"h": tHid})
+			} else {
+				v, _ := strconv.Atoi(act[1:])
+				hPanicked.Store(true)
+				panicNow(v)
+			}
+		}
+	}
+	for _, p := range oPaths {
+		r.GET(p, h)
+	}
+	rec := httptest.NewRecorder()
+	func() {
+		defer func() {
+			if p := recover(); p != nil {
+				o.Escaped = cx.PanicIndex(p)
+			}
+		}()
+		r.ServeHTTP(rec, httptest.NewRequest(http.MethodGet, c.Path, nil))
+	}()
+	o.Calls = int(calls.Load())
+	o.Status = rec.Code
+	o.Body = cx.ParseBody(rec.Body.Bytes())
+	o.HPanicked = hPanicked.Load()
+	o.Recovered = recovered.Load()
+	return o
+}
+
+func emitO(id string, c oCase, st *hx.Stats) string {
+	if skipped() {
+		return ""
+	}
+	l := hx.NewLine(id).Tok("O").Nat(len(c.Opts))
+	for _, op := range c.Opts {
+		l.Tok(op.K)
+		switch op.K {
+		case "D", "H", "SK":
+			l.Nat(op.N)
+		case "SP", "PX", "SX":
+			l.Nat(len(op.Ps))
+			for _, p := range op.Ps {
+				l.Str(p)
+			}
+		}
+	}
+	l.Str(c.Path).Nat(len(c.Prog) + 1).Tok("G" + strconv.Itoa(len(c.Prog)))
+	for _, a := range c.Prog {
+		l.Tok(a)
+	}
+	in := l.String()
+	l.Sep()
+	announce(l.String() + " 0 0 0 0 0 1 9 1 0" + hx.Comment(c))
+	o := runO(c)
+	l.Bool(o.HasDeadline).Nat(o.Budget).Nat(o.Calls).Nat(o.Status)
+	cx.EncHs(l, o.Body)
+	if o.Escaped < 0 {
+		l.Nat(0)
+	} else {
+		l.Nat(1).Nat(o.Escaped)
+	}
+	l.Bool(o.HPanicked).Bool(o.Recovered)
+	if st != nil {
+		st.Case(in[len(id):], true)
+		st.Count("O_options_" + strconv.Itoa(len(c.Opts)))
+		if o.HasDeadline {
+			st.Count("O_timed")
+		} else {
+			st.Count("O_skipped")
+		}
+		if o.Calls > 0 {
+			st.Count("O_skip_function_consulted")
+		}
+		for _, op := range c.Opts {
+			st.Count("O_opt_" + op.K)
+		}
+	}
+	return l.String() + hx.Comment(c)
+}
+
+func genO(r *hx.Rand) oCase {
+	c := oCase{Kind: "O", Path: hx.Pick(r, oPaths)}
+	somePaths := func() []string {
+		pool := []string{"/t", "/admin", "/adm", "/t/", ".ws", "ws", "/a.ws", "/x", "/", ""}
+		var out []string
+		for i := r.Range(1, 2); i > 0; i-- {
+			out = append(out, hx.Pick(r, pool))
+		}
+		return out
+	}
+	for i := r.Intn(5); i > 0; i-- {
+		switch r.Intn(10) {
+		case 0:
+			c.Opts = append(c.Opts, oOpt{K: "D", N: hx.Pick(r, []int{3600000, 7200000})})
+		case 1:
+			c.Opts = append(c.Opts, oOpt{K: "NL"})
+		case 2:
+			c.Opts = append(c.Opts, oOpt{K: "WL"})
+		case 3:
+			c.Opts = append(c.Opts, oOpt{K: "H", N: 1})
+		case 4, 5:
+			c.Opts = append(c.Opts, oOpt{K: "SP", Ps: somePaths()})
+		case 6:
+			c.Opts = append(c.Opts, oOpt{K: "PX", Ps: somePaths()})
+		case 7:
+			c.Opts = append(c.Opts, oOpt{K: "SX", Ps: somePaths()})
+		default:
+			c.Opts = append(c.Opts, oOpt{K: "SK", N: r.Intn(3)})
+		}
+	}
+	for i := r.Intn(3); i > 0; i-- {
+		c.Prog = append(c.Prog, "W")
+	}
+	if r.Chance(1, 3) {
+		c.Prog = append(c.Prog, "P"+strconv.Itoa(r.Intn(cx.NPanicValues)))
+	}
+	return c
+}
+
+func fixedO() []oCase {
+	return []oCase{
+		{Kind: "O", Path: "/t", Prog: []string{"W"}}, // defaults: 30 s, nothing skipped
+		{Kind: "O", Path: "/admin/t", Opts: []oOpt{{K: "PX", Ps: []string{"/admin"}}, {K: "SK", N: 1}}, Prog: []string{"W"}},
+		{Kind: "O", Path: "/a.ws", Opts: []oOpt{{K: "SX", Ps: []string{".ws"}}, {K: "D", N: 3600000}}, Prog: []string{"P1"}},
+		{Kind: "O", Path: "/t", Opts: []oOpt{{K: "SK", N: 2}, {K: "SK", N: 0}}, Prog: []string{"W"}},                         // a nil function given last switches the custom test off
+		{Kind: "O", Path: "/t", Opts: []oOpt{{K: "SP", Ps: []string{"/x"}}, {K: "SP", Ps: []string{"/t"}}, {K: "SK", N: 2}}}, // path sets accumulate; the function is not consulted
+		{Kind: "O", Path: "/t/x", Opts: []oOpt{{K: "D", N: 3600000}, {K: "D", N: 7200000}, {K: "SK", N: 1}}, Prog: []string{"W", "P0"}},
+	}
+}
+
 // ---------------------------------------------------------------- main
 
 func fixedR() []rCase {
@@ -960,8 +1159,13 @@ func main() {
 		for i, c := range fixedT() {
 			out(emitT(fmt.Sprintf("c10-fixT-%d", i), c, st))
 		}
+		for i, c := range fixedO() {
+			out(emitO(fmt.Sprintf("c10-fixO-%d", i), c, st))
+		}
 		for i := 0; i < args.N; i++ {
-			if i%4 == 3 {
+			if i%16 == 7 {
+				out(emitO(fmt.Sprintf("c10-%d-%d", args.Seed, i), genO(r), st))
+			} else if i%4 == 3 {
 				out(emitT(fmt.Sprintf("c10-%d-%d", args.Seed, i), genT(r, st), st))
 			} else {
 				out(emitR(fmt.Sprintf("c10-%d-%d", args.Seed, i), genR(r, st), st))
@@ -978,7 +1182,11 @@ func main() {
 				out(fmt.Sprintf("# cannot replay %q: %v", id, err))
 				continue
 			}
-			if k.Kind == "T" {
+			if k.Kind == "O" {
+				var c oCase
+				_, _ = hx.CaseFromComment(line, &c)
+				out(emitO(id, c, nil))
+			} else if k.Kind == "T" {
 				var c tCase
 				_, _ = hx.CaseFromComment(line, &c)
 				out(emitT(id, c, nil))
